@@ -356,7 +356,25 @@ def _check(ctx, tmp):
         used_s.add(s); used_n.add(n)
         r = special.pop() if special and rng.random() < 0.4 else 10 ** rng.uniform(-5, 5)
         wt.append((s, n, r))
+    # everyday currency WORDS as the names of minor currencies, listed before the majors that share the word (pkr "rupee" before
+    # inr "indianrupee" …): a table is data — every row is a currency under its code, whatever names the rows before it took
+    words = [("pkr", "rupee", "inr", "indianrupee"), ("clp", "peso", "mxn", "mexicanpeso"), ("xaf", "franc", "chf", "swissfranc"), ("twd", "yuan", "cny", "renminbi"),
+             ("kpw", "won", "krw", "southkoreanwon"), ("byn", "ruble", "rub", "russianruble"), ("itl", "lira", "try", "turkishlira"), ("lak", "baht", "thb", "thaibaht"),
+             ("xzl", "zloty", "pln", "polishzloty"), ("xsh", "shekel", "ils", "israelishekel"), ("isk", "krona", "sek", "swedishkrona"), ("kwd", "dinar", "rsd", "serbiandinar")]
+    for c1, n1, c2, n2 in words:
+        if any(x in used_s for x in (c1, c2)) or \
+                any((U.lookup_unit(x) is not None and "cash" not in U.lookup_unit(x).quantities) for x in (c1, c2, n1, n1 + "s", n2, n2 + "s")):
+            continue
+        used_s.update((c1, c2)); used_n.update((n1, n2))
+        wt.append((c1, n1, round(10 ** rng.uniform(-2, 3), 4) + 0.0123))
+        wt.append((c2, n2, round(10 ** rng.uniform(-2, 3), 4) + 0.0456))
     rng.shuffle(wt)
+    # (the minor row of each pair stays before its major)
+    for c1, n1, c2, n2 in words:
+        i1 = next((i for i, r_ in enumerate(wt) if r_[0] == c1), None)
+        i2 = next((i for i, r_ in enumerate(wt) if r_[0] == c2), None)
+        if i1 is not None and i2 is not None and i1 > i2:
+            wt[i1], wt[i2] = wt[i2], wt[i1]
     wfile = os.path.join(tmp, "written-table")
     rows_json = os.path.join(tmp, "rows.json")
     json.dump(wt, open(rows_json, "w"))
@@ -405,6 +423,10 @@ def _check(ctx, tmp):
         wmeta.append((x, a, b))
     wexprs.append("7 usd to eur")
     wmeta.append((Fraction(7), "usd", "eur"))
+    for c_ in wcodes:                      # every row of the table is reachable under its code, in both directions
+        if c_ not in ("usd",):
+            wexprs.append("7 usd to %s" % c_); wmeta.append((Fraction(7), "usd", c_))
+            wexprs.append("3 %s to eur" % c_); wmeta.append((Fraction(3), c_, "eur"))
     other = next(s for s in wcodes if s not in ("usd", "eur"))
     whomes = [("default-path", mkhome(root, "w-default", currency=data), "eur"),
               ("currency-path", mkhome(root, "w-path", config="currency-path=%s\n" % wfile), "eur"),
